@@ -194,13 +194,16 @@ def _fresh_time(eng, state):
 
 
 def new_archive(eng, mode="w", header_mode="raw", password=None):
-    """a SevenZipFile in write mode on an ArchFile, built by the real _prepare_write (constructor I/O skipped)"""
-    szf = SObj(eng.cls(PZ, "SevenZipFile"))
+    """a SevenZipFile in write mode on an ArchFile, built by the real constructor"""
+    import queue as _queue
+
+    eng.models.reg(_queue.Queue, lambda e, *a, **k: Queue())
     fp = ArchFile(eng)
-    szf.attrs.update(fp=fp, mode=mode, _filePassed=True, filename=None, dereference=False, mp=False,
-                     encoded_header_mode=(header_mode != "raw"), header_encryption=(header_mode == "encrypted"),
-                     password_protected=password is not None, _block_size=1048576, reporterd=None, q=Queue())
-    eng.method(szf, "_prepare_write", None, password)
+    # the REAL constructor runs (file-object branch); the header mode is then chosen through the real setters
+    szf = eng.new(eng.cls(PZ, "SevenZipFile"), fp, mode, password=password, header_encryption=(header_mode == "encrypted"))
+    szf.attrs["q"] = Queue()
+    if header_mode == "raw":
+        eng.method(szf, "set_encoded_header_mode", False)
     return szf, fp
 
 
